@@ -10,6 +10,7 @@ Variable dec : string -> dec_result.
 Variable show_nat : nat -> string.
 Variable parse_index : string -> option nat.
 Variable parse_usize : string -> option nat.
+Variable pos : string -> nat.
 Hypothesis hash_inj : forall x y, H x = H y -> x = y.
 Hypothesis dec_enc : forall ps, dec (enc ps) = DJson (JArr ps).
 
@@ -19,10 +20,10 @@ Notation wf := (wf H enc).
 Notation hdigs := (hdigs H enc).
 Notation alldigs := (alldigs H enc).
 Notation IsNode := (IsNode H enc).
-Notation mark := (mark H enc parse_index parse_usize).
+Notation mark := (mark H enc parse_index parse_usize pos).
 Notation target := (target parse_index parse_usize).
 Notation mk_disc := (mk_disc H enc).
-Notation build_disclosure := (build_disclosure H enc parse_index parse_usize).
+Notation build_disclosure := (build_disclosure H enc parse_index parse_usize pos).
 Notation proj := (proj H enc).
 
 Definition path := (list string * string)%type.   (* parent tokens, last token *)
@@ -62,10 +63,10 @@ Proof.
   - cbn in Hm. injection Hm as <-. exists []. cbn. repeat split; auto.
   - destruct salts as [|salt ss]; [discriminate|]. cbn [mark_fold] in Hm.
     destruct (mark toks key salt t) as [t1|] eqn:Em; [|discriminate].
-    destruct (build_disclosure_mark H enc parse_index parse_usize key salt toks t t1 Hw Em) as (k & s & Ht & Hb).
-    pose proof (mark_wf H enc parse_index parse_usize key salt toks t t1 Hw Em) as Hw1.
-    destruct (mark_digs H enc parse_index parse_usize key salt toks t t1 k s Hw Em Ht) as [Hp1 Hp2].
-    pose proof (mark_IsNode_new H enc parse_index parse_usize key salt toks t t1 k s Hw Em Ht) as Hnew.
+    destruct (build_disclosure_mark H enc parse_index parse_usize pos key salt toks t t1 Hw Em) as (k & s & Ht & Hb).
+    pose proof (mark_wf H enc parse_index parse_usize pos key salt toks t t1 Hw Em) as Hw1.
+    destruct (mark_digs H enc parse_index parse_usize pos key salt toks t t1 k s Hw Em Ht) as [Hp1 Hp2].
+    pose proof (mark_IsNode_new H enc parse_index parse_usize pos key salt toks t t1 k s Hw Em Ht) as Hnew.
     destruct (IH ss t1 t' Hw1 Hm) as (ds & Hf & Hw' & Hq1 & Hq2 & Hnodes & Hpres & Hproj & Hmade).
     exists (mk_disc salt k (blind s) :: ds). cbn [issue_fold]. rewrite Hb. cbn [bind]. rewrite Hf. cbn [bind].
     split; [reflexivity|]. split; [assumption|].
@@ -76,8 +77,8 @@ Proof.
     { etransitivity; [exact Hq2|]. cbn [map app]. etransitivity; [apply Permutation_app_head; exact Hp2|].
       symmetry. apply Permutation_middle. }
     split; [constructor; [apply Hpres; exact Hnew|assumption]|].
-    split; [intros g k0 v Hn; apply Hpres; exact (mark_IsNode_old H enc parse_index parse_usize g k0 v key salt toks t t1 Hw Em Hn)|].
-    split; [rewrite Hproj; exact (mark_orig H enc parse_index parse_usize key salt toks t t1 Hw Em)|].
+    split; [intros g k0 v Hn; apply Hpres; exact (mark_IsNode_old H enc parse_index parse_usize pos g k0 v key salt toks t t1 Hw Em Hn)|].
+    split; [rewrite Hproj; exact (mark_orig H enc parse_index parse_usize pos key salt toks t t1 Hw Em)|].
     cbn [List.length firstn]. constructor; [|assumption]. unfold made_with. destruct k; reflexivity.
 Qed.
 
